@@ -244,3 +244,31 @@ def reachable(bdd, roots):
             stack.append(abs(v))
             stack.append(abs(w))
     return seen
+
+
+def observe_queries(bdd, U, r, mask):
+    """Pure queries on a held reference, compared with the model.  Called in EVERY state of the
+    history machines, so that an answer remembered in one state and served in a later one
+    (after a swap, a collection, a declaration ...) is noticed."""
+    b = raw(bdd)
+    sup = U.support(mask)
+    got = b.support(r)
+    if set(got) != sup:
+        raise Violation('support(u) is not the set of variables u depends on (in a history)',
+                        got=sorted(got), want=sorted(sup))
+    lv = b.support(r, as_levels=True)
+    if {b.var_at_level(i) for i in lv} != sup:
+        raise Violation('support(u, as_levels=True) is wrong (in a history)')
+    nm = U.count(mask) >> (U.m - len(sup))
+    if b.count(r) != nm:
+        raise Violation('count(u) is not the number of models over the support (in a history)',
+                        got=b.count(r), want=nm)
+    if b.count(r, len(sup) + 1) != 2 * nm:
+        raise Violation('count(u, n) is wrong (in a history)')
+    p = b.pick(r)
+    if (p is None) != (mask == 0):
+        raise Violation('pick(u) is None exactly for false is violated (in a history)')
+    if p is not None and (U.cube_mask(p) & ~mask & U.full or set(p) != sup):
+        raise Violation('pick(u) is not a model over the support (in a history)', pick=p)
+    if len(b.descendants([r])) != len(reachable(b, [r])):
+        raise Violation('descendants([u]) is not the reachable set (in a history)')
